@@ -27,7 +27,7 @@ CLAIMED = {
             "profiles of the stand-in (always-masked and mask-if-missing): after every write the file is read back with read_nc and compared with the "
             "machine's file content (dimension order, axis labels and kinds, variable order, dims, cells incl. NaN, dtype kind, metadata on dataset / "
             "variable / axis level), failed writes must leave the file unchanged and in-memory objects are snapshotted. from_json(to_json(a)) is "
-            "checked for every pool array.",
+            "checked for every pool array. In the other direction 160 (2000) randomly driven write sequences with arrays outside the pool are recorded from dimarray.io.nc and accepted by TLC only if every step is the corresponding machine action leading to the file content read back (spec/TraceNcStore.tla); corrupted controls must be rejected.",
             "Trusted: TLC, NumPy and harness/ncstub/netCDF4 (the netCDF4-python API contract, not the C library or the byte format). "
             "str data / labels are not written to NETCDF3; appended arrays agree with the file on shared labels.",
             "5 (C19), 9.1"),
